@@ -161,3 +161,13 @@ def identical_periodic_small(case, params):
     """make_splines_identical on an operand with a periodic direction of fewer than order+continuity functions
     (insertion / lower_periodic are not defined there, see C04-periodic-small)"""
     return any(b['periodic'] >= 0 and _nfun(b) < b['order'] + b['periodic'] for b in _both(case))
+
+
+def integrate_periodic_small(case, params):
+    """BSplineBasis.integrate on a periodic basis with fewer than order+continuity functions"""
+    if case.get('op') != 'integrate':
+        return False
+    b = (case.get('args') or {}).get('basis') or case.get('args')
+    if not b or 'knots' not in b:
+        return False
+    return b['periodic'] >= 0 and len(b['knots']) - b['order'] - b['periodic'] - 1 < b['order'] + b['periodic']
